@@ -119,3 +119,54 @@ def split_cond_assigns(stmts):
             out.append(s)
     return out
 
+
+
+def poly_norm(e):
+    """Polynomial normal form of an integer index expression: products distributed over sums, like monomials combined (`rb*n + n*(r - rb)` is `n*r`),
+    rebuilt in the canonical operand order.  Anything that is not +, -, * or a number is an opaque atom."""
+    def mul(p, q):
+        out = {}
+        for ma, ca in p.items():
+            for mb, cb in q.items():
+                m = tuple(sorted(ma + mb, key=repr))
+                out[m] = out.get(m, 0) + ca * cb
+        return out
+
+    def go(x):
+        if x[0] == 'num' and isinstance(x[1], int) and not isinstance(x[1], bool):
+            return {(): x[1]}
+        if x[0] == 'bin' and x[1] in ('+', '-'):
+            a, b = go(x[2]), go(x[3])
+            out = dict(a)
+            for m, c in b.items():
+                out[m] = out.get(m, 0) + (c if x[1] == '+' else -c)
+            return out
+        if x[0] == 'bin' and x[1] == '*':
+            return mul(go(x[2]), go(x[3]))
+        if x[0] == 'un' and x[1] == 'neg':
+            return {m: -c for m, c in go(x[2]).items()}
+        return {(x,): 1}
+    poly = {m: c for m, c in go(e).items() if c != 0}
+    if not poly:
+        return ('num', 0)
+    pos, neg = [], []
+    for m, c in sorted(poly.items(), key=lambda kv: (len(kv[0]) == 0, repr(kv[0]))):
+        t = None
+        for a in m:
+            t = a if t is None else ('bin', '*', t, a)
+        k = abs(c)
+        if t is None:
+            t = ('num', k)
+        elif k != 1:
+            t = ('bin', '*', t, ('num', k))
+        (pos if c > 0 else neg).append(t)
+    if not pos:
+        r = ('un', 'neg', neg[0])
+        neg = neg[1:]
+    else:
+        r = pos[0]
+        for t in pos[1:]:
+            r = ('bin', '+', r, t)
+    for t in neg:
+        r = ('bin', '-', r, t)
+    return canon_expr(r)
